@@ -2,7 +2,10 @@
 
 package docx
 
-import "strings"
+import (
+	"archive/zip"
+	"strings"
+)
 
 // H_C11_docx_paragraph_exclusion: with header/footer exclusion, a body paragraph is dropped only if its text equals a
 // line of a header or footer part.
@@ -25,5 +28,62 @@ func H_C11_docx_paragraph_exclusion() {
 		}
 	}
 	vAssert("excluded-iff-equal-to-a-header-or-footer-line", got == want)
+	vReach("end")
+}
+
+// H_C11_docx_exclusion_only_deletes: with exclusion, the text is the unfiltered text minus the excluded paragraphs: the
+// surviving lines - list numbers included - are unchanged.
+//
+//symgo:harness prop=C11 kernel=K3b-docx-exclusion-only-deletes noreplay=1
+//symgo:redirect archive/zip.OpenReader vStubOpenZip
+//symgo:desc zip layer cut (member content model); a DOCX package with a decimal numbered list of three items, a closing paragraph and a header part whose text equals the first item, the second item or nothing in the body (enumerated); every non-empty line of Text() with ExcludeHeaders is a line of Text() without it - same list number -, in the same order, and exactly the matching item is gone
+func H_C11_docx_exclusion_only_deletes() {
+	items := []string{"Introduction", "Methods", "Results"}
+	hdr := vAnyIntIn(0, 2)
+	headerText := "Unrelated running header"
+	if hdr < 2 {
+		headerText = items[hdr]
+	}
+	body := ""
+	for _, t := range items {
+		body += `<w:p><w:pPr><w:numPr><w:ilvl w:val="0"/><w:numId w:val="1"/></w:numPr></w:pPr><w:r><w:t>` + t + `</w:t></w:r></w:p>`
+	}
+	body += `<w:p><w:r><w:t>Closing words.</w:t></w:r></w:p>`
+	vZip = &zip.ReadCloser{}
+	vMember("[Content_Types].xml", `<?xml version="1.0"?><Types xmlns="http://schemas.openxmlformats.org/package/2006/content-types"/>`)
+	vMember("word/_rels/document.xml.rels", `<?xml version="1.0"?><Relationships xmlns="http://schemas.openxmlformats.org/package/2006/relationships"><Relationship Id="rId6" Type="http://schemas.openxmlformats.org/officeDocument/2006/relationships/header" Target="header1.xml"/></Relationships>`)
+	vMember("word/header1.xml", `<?xml version="1.0"?><w:hdr `+vWNS+`><w:p><w:r><w:t>`+headerText+`</w:t></w:r></w:p></w:hdr>`)
+	vMember("word/document.xml", `<?xml version="1.0"?><w:document `+vWNS+`><w:body>`+body+`<w:sectPr><w:headerReference w:type="default" r:id="rId6"/></w:sectPr></w:body></w:document>`)
+	vMember("word/styles.xml", vStylesXML)
+	vMember("word/numbering.xml", `<?xml version="1.0"?><w:numbering `+vWNS+`><w:abstractNum w:abstractNumId="0"><w:lvl w:ilvl="0"><w:start w:val="1"/><w:numFmt w:val="decimal"/><w:lvlText w:val="%1."/></w:lvl></w:abstractNum><w:num w:numId="1"><w:abstractNumId w:val="0"/></w:num></w:numbering>`)
+	r, err := Open("any.docx")
+	vAssert("opens", err == nil && r != nil)
+	plain, err1 := r.TextWithOptions(ExtractOptions{})
+	excl, err2 := r.TextWithOptions(ExtractOptions{ExcludeHeaders: true})
+	vAssert("no-error", err1 == nil && err2 == nil)
+	lines := func(s string) []string {
+		var out []string
+		for _, l := range strings.Split(s, "\n") {
+			if strings.TrimSpace(l) != "" {
+				out = append(out, strings.TrimSpace(l))
+			}
+		}
+		return out
+	}
+	pl, el := lines(plain), lines(excl)
+	vAssert("unfiltered-has-four-lines", len(pl) == 4 && strings.HasPrefix(pl[1], "2."))
+	want := len(pl)
+	if hdr < 2 {
+		want--
+	}
+	vAssert("only-the-matching-paragraph-is-gone", len(el) == want)
+	k := 0
+	for _, l := range el {
+		for k < len(pl) && pl[k] != l {
+			k++
+		}
+		vAssert("surviving-lines-unchanged-and-in-order", k < len(pl))
+		k++
+	}
 	vReach("end")
 }
